@@ -340,18 +340,25 @@ impl Sut {
             }
             Op::Tick => {
                 if self.cfg.persistent {
+                    // Which workers will be asked to flush by this tick?
+                    let d = self.store().verif_dump();
+                    let workers = self.cfg.workers.max(1);
+                    let mut asked: Vec<usize> = d.buffered.iter().map(|b| b.shard % workers).collect();
+                    if !d.retirements.is_empty() {
+                        asked.push(0);
+                    }
+                    asked.sort();
+                    asked.dedup();
+                    let done0 = self.sess.worker_done.load(Ordering::SeqCst);
                     self.sess.tick_grants.store(1, Ordering::SeqCst);
                     let start = std::time::Instant::now();
-                    while self.sess.tick_grants.load(Ordering::SeqCst) != 0 {
-                        if start.elapsed().as_secs() > 5 {
-                            return Out::err("TickNotTaken");
+                    while self.sess.tick_grants.load(Ordering::SeqCst) != 0
+                        || self.sess.worker_done.load(Ordering::SeqCst) < done0 + asked.len() as u64
+                    {
+                        if start.elapsed().as_secs() > 10 {
+                            return Out::err("TickNotCompleted");
                         }
-                        std::thread::sleep(std::time::Duration::from_micros(200));
-                    }
-                    // The coordinator only *requests* a flush; give the worker time to act.
-                    std::thread::sleep(std::time::Duration::from_millis(1));
-                    if !self.wait_drained(5000) {
-                        return Out::err("TickNotDrained");
+                        std::thread::sleep(std::time::Duration::from_micros(100));
                     }
                 }
                 return Out::Unit;
